@@ -202,9 +202,7 @@ func withSel(payload []byte, sel ...byte) []byte {
 	return append(append([]byte(nil), sel...), payload...)
 }
 
-func selByte(rt *rapid.T, n int, label string) byte {
-	return byte(rapid.IntRange(0, n-1).Draw(rt, label))
-}
+func selByte(rt *rapid.T, n int, label string) byte { return byte(uni(rt, n, label)) }
 
 // split returns the selector bytes (zero-padded) and the payload of a case.
 func split(data []byte, nsel int) ([]byte, []byte) {
